@@ -193,3 +193,43 @@ class ChoiceSet(set):
 
     def __reduce__(self):
         return (ChoiceSet, (list(self._order),))
+
+
+# ------------------------------------------------------------------------------------------------
+# controlled KD-tree pair order (C03 / C11 schedules)
+
+class PairOrder:
+    """Explorer-chosen processing order of the hydrogen-bond candidate pairs."""
+
+    def __init__(self):
+        self.fn = None  # callable(list_of_pairs, coordinates) -> list_of_pairs
+        self.last = None
+
+    def order(self, pairs, data, r):
+        natural = list(pairs)
+        self.last = (natural, data, r)
+        if self.fn is None or r > 5.0:
+            return natural
+        out = self.fn(natural, data)
+        assert sorted(out) == sorted(natural), "schedule must be a permutation"
+        return out
+
+
+PAIR_ORDER = PairOrder()
+
+
+def make_scheduled_kdtree():
+    from scipy.spatial import KDTree as RealKDTree
+
+    class ScheduledKDTree:
+        def __init__(self, data, *a, **k):
+            self._tree = RealKDTree(data, *a, **k)
+            self._data = data
+
+        def query_pairs(self, r, *a, **k):
+            return PAIR_ORDER.order(self._tree.query_pairs(r, *a, **k), self._data, r)
+
+        def __getattr__(self, name):
+            return getattr(self._tree, name)
+
+    return ScheduledKDTree
